@@ -1,17 +1,13 @@
 #!/bin/bash
-# integrate.sh <ID> : copies a checker agent's rule files and self-test list from /tmp/vw/<ID>/verif into /verif, rebuilds,
-# runs the property on /repo and then on the round-3 seeded changes of that property (scratch worktree).
+# integrate.sh <ID> [<copy-dir>=/tmp/vw/<ID>] : copies a checker agent's rule files (c<NN>*.go) and self-test list from its private
+# copy into /verif, rebuilds and runs the property on /repo.
 set -u
-ID=$1; nn=$(echo $ID | tr 'C' 'c')
+ID=$1; D=${2:-/tmp/vw/$ID}; nn=$(echo $ID | tr 'C' 'c')
 export GOFLAGS=-mod=mod GOPROXY=off GOSUMDB=off GOTOOLCHAIN=local
 cd /verif
-cp /tmp/vw/$ID/verif/internal/rules/${nn}*.go internal/rules/
-[ -f /tmp/vw/$ID/out/selftest.json ] && cp /tmp/vw/$ID/out/selftest.json selftest/mutants/$ID.json
+cp $D/verif/internal/rules/${nn}*.go internal/rules/
+cp $D/verif/selftest/mutants/$ID.json selftest/mutants/$ID.json
 go build -o bin/egverify ./cmd/egverify || exit 9
 go vet ./internal/rules/ || exit 9
-./bin/egverify -property $ID > /tmp/int_$ID.log 2>&1; echo "$ID on /repo: exit $? $(grep -c KNOWN-FINDING /tmp/int_$ID.log) known"; grep -E "VIOLATION|CHECKER-ERROR|undecided" /tmp/int_$ID.log | head
-for x in a b; do
-  p=/tmp/mut3/out/$ID/$x/patch.diff; [ -f $p ] || continue
-  echo "--- round3 $ID/$x"; tools/mut.sh $p $ID 2>&1 | tail -4
-done
-git status --short | head
+gofmt -l internal/rules
+VERIF_NO_EVIDENCE=1 ./bin/egverify -property $ID > /tmp/int_$ID.log 2>&1; echo "$ID on /repo: exit $? $(grep -c KNOWN-FINDING /tmp/int_$ID.log) known; $(head -1 /tmp/int_$ID.log)"; grep -E "VIOLATION|CHECKER-ERROR|undecided" /tmp/int_$ID.log | head
